@@ -20,6 +20,7 @@ import (
 
 func init() {
 	spaces["cache.bfs"] = func(t string) mck.Space { return cacheBFS(t) }
+	spaces["cache.capacity"] = func(t string) mck.Space { return cacheCapacity(t) }
 }
 
 type ckey struct {
@@ -123,19 +124,40 @@ func cacheKeys(tier string) []ckey {
 type cdef struct {
 	name   string
 	fields []ref.Field
+	scope  []ref.Field // options template: scope fields (in front of the option fields)
+}
+
+// optionDefs: options templates that differ ONLY in their scope field, only in their option field, and in
+// both - all with the same field counts and record length (mode "options").
+func optionDefs() []cdef {
+	var u16 []uint16
+	for _, k := range flowh.ModelKeys() {
+		if k[0] == 0 && k[1] < 30000 && flowh.TypeOf(0, uint16(k[1])) == ref.TU16 {
+			u16 = append(u16, uint16(k[1]))
+		}
+	}
+	if len(u16) < 4 {
+		panic("the model has fewer than four unsigned16 elements")
+	}
+	f := func(id uint16) ref.Field { return ref.Field{ID: id, Len: 2, Type: ref.TU16} }
+	return []cdef{
+		{"o1[scope a | x]", []ref.Field{f(u16[2])}, []ref.Field{f(u16[0])}},
+		{"o2[scope b | x]", []ref.Field{f(u16[2])}, []ref.Field{f(u16[1])}},
+		{"o3[scope a | y]", []ref.Field{f(u16[3])}, []ref.Field{f(u16[0])}},
+	}
 }
 
 func cacheDefs(tier string) []cdef {
 	by := flowh.ElemByType()
 	ds := []cdef{
-		{"d1[u32]", []ref.Field{{ID: by[ref.TU32], Len: 4, Type: ref.TU32}}},
-		{"d2[u16,u16]", []ref.Field{{ID: by[ref.TU16], Len: 2, Type: ref.TU16}, {ID: by[ref.TU16], Len: 2, Type: ref.TU16}}},
-		{"d3[ipv4]", []ref.Field{{ID: by[ref.TIPv4], Len: 4, Type: ref.TIPv4}}},
+		{name: "d1[u32]", fields: []ref.Field{{ID: by[ref.TU32], Len: 4, Type: ref.TU32}}},
+		{name: "d2[u16,u16]", fields: []ref.Field{{ID: by[ref.TU16], Len: 2, Type: ref.TU16}, {ID: by[ref.TU16], Len: 2, Type: ref.TU16}}},
+		{name: "d3[ipv4]", fields: []ref.Field{{ID: by[ref.TIPv4], Len: 4, Type: ref.TIPv4}}},
 		// same element as d1, different field length (reduced-size encoding: two 2-octet records in the probe)
-		{"d5[u32@2]", []ref.Field{{ID: by[ref.TU32], Len: 2, Type: ref.TU32}}},
+		{name: "d5[u32@2]", fields: []ref.Field{{ID: by[ref.TU32], Len: 2, Type: ref.TU32}}},
 	}
 	if tier == "thorough-defs" {
-		ds = append(ds, cdef{"d4[u8x4]", []ref.Field{{ID: by[ref.TU8], Len: 1, Type: ref.TU8}, {ID: by[ref.TU8], Len: 1, Type: ref.TU8}, {ID: by[ref.TU8], Len: 1, Type: ref.TU8}, {ID: by[ref.TU8], Len: 1, Type: ref.TU8}}})
+		ds = append(ds, cdef{name: "d4[u8x4]", fields: []ref.Field{{ID: by[ref.TU8], Len: 1, Type: ref.TU8}, {ID: by[ref.TU8], Len: 1, Type: ref.TU8}, {ID: by[ref.TU8], Len: 1, Type: ref.TU8}, {ID: by[ref.TU8], Len: 1, Type: ref.TU8}}})
 	}
 	if tier == "thorough-keys" || strings.HasPrefix(tier, "derived-") {
 		ds = []cdef{ds[0], ds[2], ds[3]}
@@ -175,7 +197,7 @@ func (e *cacheEnv) partner(k int) int {
 }
 
 func (e *cacheEnv) tpl(k, d int) ref.Template {
-	return ref.Template{ID: e.keys[k].id, Fields: e.defs[d].fields}
+	return ref.Template{ID: e.keys[k].id, Options: len(e.defs[d].scope) > 0, Scope: e.defs[d].scope, Fields: e.defs[d].fields}
 }
 
 func (e *cacheEnv) msg(sets ...ref.Set) *ref.Msg {
@@ -191,6 +213,9 @@ func (e *cacheEnv) apply(c *flowh.Caches, ev cevent) (recs [][]ref.ExpField, unk
 	case "ann", "ann+data", "data+ann", "data+ann+data", "ann-two-in-one-set":
 		t := e.tpl(ev.k, ev.d)
 		ts := ref.Set{Kind: ref.SetTemplates, Templates: []ref.Template{t}}
+		if e.v9 && t.Options {
+			ts.Pad = (4 - (6+4*len(t.All()))%4) % 4
+		}
 		if ev.kind == "ann-two-in-one-set" { // this id and another id of the same exporter announced by ONE set, then data for this id
 			p := e.partner(ev.k)
 			ts.Templates = []ref.Template{t, e.tpl(p, (ev.d+1)%len(e.defs))}
@@ -222,13 +247,16 @@ func (e *cacheEnv) apply(c *flowh.Caches, ev cevent) (recs [][]ref.ExpField, unk
 		// render the returned template as the record it would decode from the probe body
 		var out [][]ref.ExpField
 		off := 0
-		for off < len(probeBody) && len(resp.FieldSpecifiers) > 0 {
+		for off < len(probeBody) && len(resp.FieldSpecifiers)+len(resp.ScopeFieldSpecifiers) > 0 {
 			var rec []ref.ExpField
-			for _, f := range resp.FieldSpecifiers {
+			for _, f := range append(append([]ipfix.TemplateFieldSpecifier{}, resp.ScopeFieldSpecifiers...), resp.FieldSpecifiers...) {
 				if off+int(f.Length) > len(probeBody) || f.Length == 0 {
 					return out, false, "template does not fit the probe"
 				}
 				at := flowh.TypeOf(f.EnterpriseNo, f.ElementID)
+				if at == ref.TUnknown { // a decoder cannot use this template: no records
+					return nil, false, ""
+				}
 				rec = append(rec, ref.ExpField{ID: f.ElementID, PEN: f.EnterpriseNo, Value: ref.Interpret(at, probeBody[off:off+int(f.Length)])})
 				off += int(f.Length)
 			}
@@ -254,12 +282,26 @@ func (e *cacheEnv) apply(c *flowh.Caches, ev cevent) (recs [][]ref.ExpField, unk
 	return nil, false, ""
 }
 
+// undecodable: the definition names an element the information model does not have - data for it yields no
+// records (and is not an "unknown template" either); it still is the exporter's LATEST template.
+func (e *cacheEnv) undecodable(d int) bool {
+	for _, f := range append(append([]ref.Field{}, e.defs[d].scope...), e.defs[d].fields...) {
+		if f.Type == ref.TUnknown {
+			return true
+		}
+	}
+	return false
+}
+
 func (e *cacheEnv) expected(d int) [][]ref.ExpField {
+	if e.undecodable(d) {
+		return nil
+	}
 	var out [][]ref.ExpField
 	off := 0
 	for off < len(probeBody) {
 		var rec []ref.ExpField
-		for _, f := range e.defs[d].fields {
+		for _, f := range append(append([]ref.Field{}, e.defs[d].scope...), e.defs[d].fields...) {
 			rec = append(rec, ref.ExpField{ID: f.ID, Value: ref.Interpret(f.Type, probeBody[off:off+int(f.Len)])})
 			off += int(f.Len)
 		}
@@ -286,9 +328,23 @@ func cacheBFS(tier string) mck.Space {
 	if tier == "thorough" {
 		modes = []string{"thorough-keys", "thorough-defs"}
 	}
-	modes = append(modes, "derived-text", "derived-id")
+	modes = append(modes, "derived-text", "derived-id", "options", "undecodable")
 	for _, m := range modes {
 		for _, v9 := range []bool{false, true} {
+			if m == "undecodable" {
+				by := flowh.ElemByType()
+				cfgs = append(cfgs, cfg{v9, []ckey{{"A/256", net.ParseIP("192.0.2.1"), 256}, {"B/256", net.ParseIP("192.0.2.2"), 256}}, []cdef{
+					{name: "d1[u32]", fields: []ref.Field{{ID: by[ref.TU32], Len: 4, Type: ref.TU32}}},
+					{name: "dU[absent element]", fields: []ref.Field{{ID: 9999, Len: 4, Type: ref.TUnknown}}},
+					{name: "dV[u16, absent element]", fields: []ref.Field{{ID: by[ref.TU16], Len: 2, Type: ref.TU16}, {ID: 9998, Len: 2, Type: ref.TUnknown}}},
+				}})
+				continue
+			}
+			if m == "options" {
+				a := net.ParseIP("192.0.2.1")
+				cfgs = append(cfgs, cfg{v9, []ckey{{"A/256", a, 256}, {"A/257", a, 257}, {"B/256", net.ParseIP("192.0.2.2"), 256}}, optionDefs()})
+				continue
+			}
 			if strings.HasPrefix(m, "derived-") {
 				cfgs = append(cfgs, cfg{v9, derivedKeys(m, v9), cacheDefs(m)})
 				continue
@@ -321,6 +377,9 @@ func cacheBFS(tier string) mck.Space {
 					if ks := fmt.Sprint(nr); !seen[ks] {
 						seen[ks] = true
 						kind := kinds[len(list)%len(kinds)]
+						if kind == "insert" && len(cf.defs[d].scope) > 0 {
+							kind = "ann" // the peer-insert event carries plain templates only
+						}
 						list = append(list, st{nr, append(append([]cevent{}, cur.path...), cevent{kind, k, d})})
 					}
 				}
@@ -358,7 +417,11 @@ func cacheBFS(tier string) mck.Space {
 		var evs []cevent
 		for k := range env.keys {
 			for d := range env.defs {
-				evs = append(evs, cevent{"ann", k, d}, cevent{"ann+data", k, d}, cevent{"data+ann", k, d}, cevent{"data+ann+data", k, d}, cevent{"insert", k, d})
+				evs = append(evs, cevent{"ann", k, d}, cevent{"ann+data", k, d}, cevent{"data+ann", k, d}, cevent{"data+ann+data", k, d})
+				if len(env.defs[d].scope) > 0 {
+					continue
+				}
+				evs = append(evs, cevent{"insert", k, d})
 				if env.partner(k) >= 0 {
 					evs = append(evs, cevent{"ann-two-in-one-set", k, d})
 				}
@@ -420,6 +483,12 @@ func cacheBFS(tier string) mck.Space {
 				cls := "other"
 				if len(env.keys) == 4 {
 					cls = "derived-key-pairs"
+				}
+				if len(env.defs[0].scope) > 0 {
+					cls = "options-templates"
+				}
+				if len(env.keys) == 2 {
+					cls = "undecodable-definitions"
 				}
 				if colliding[k] {
 					cls = "hash-colliding-keys"
@@ -510,4 +579,72 @@ func keyNames(ks []ckey) []string {
 		s = append(s, fmt.Sprintf("%s=%s#%d(len %d)", k.name, k.addr, k.id, len(k.addr)))
 	}
 	return s
+}
+
+// cacheCapacity: a template stays the exporter's latest however MANY other exporters announce theirs
+// afterwards (there is no bound in the statement): the victim announces, N other exporter/id pairs announce,
+// then the victim's data - and that of every 97th other exporter - must decode under their own templates.
+func cacheCapacity(tier string) mck.Space {
+	flowh.InstallExtra()
+	ns := []int{1, 31, 32, 33, 1000, 4095, 4096, 4097, 40000, 140000}
+	if tier == "thorough" {
+		ns = append(ns, 300000, 600000)
+	}
+	dims := mck.Radix{2, uint64(len(ns)), 2}
+	return mck.FuncSpace{N: dims.Size(), F: func(idx uint64, c *mck.Ctx) {
+		d := dims.Digits(idx)
+		v9, n, sameID := d[0] == 1, ns[d[1]], d[2] == 1
+		proto := "ipfix"
+		if v9 {
+			proto = "v9"
+		}
+		env := &cacheEnv{v9: v9, defs: cacheDefs("quick")}
+		desc := func() interface{} {
+			return map[string]interface{}{"protocol": proto, "other_announcements": n, "others_use_the_victims_template_id": sameID}
+		}
+		c.SetCase(desc)
+		c.Heartbeat()
+		cc := flowh.NewCaches()
+		victim := ckey{"victim", net.ParseIP("192.0.2.1"), 256}
+		other := func(i int) ckey {
+			id := uint16(256)
+			if !sameID {
+				id = uint16(257 + i%4000)
+			}
+			return ckey{"", net.IPv4(10, byte(i>>16), byte(i>>8), byte(i)), id}
+		}
+		ann := func(k ckey, def int) {
+			t := ref.Template{ID: k.id, Fields: env.defs[def].fields}
+			flowh.Decode(v9, k.addr, env.msg(ref.Set{Kind: ref.SetTemplates, Templates: []ref.Template{t}}).Encode(nil), cc)
+		}
+		probe := func(k ckey, def int) string {
+			r := flowh.Decode(v9, k.addr, env.msg(ref.Set{Kind: ref.SetRaw, RawID: k.id, RawBody: probeBody}).Encode(nil), cc)
+			if cls, m := flowh.CompareRecords(r.Records, env.expected(def)); cls != "" {
+				return fmt.Sprintf("%s (decoded %v, err %v)", m, flowh.DescribeRecords(r.Records), r.Err)
+			}
+			return ""
+		}
+		ann(victim, 0)
+		for i := 0; i < n; i++ {
+			ann(other(i), 1+i%2)
+			if i%20000 == 0 {
+				c.Heartbeat()
+			}
+		}
+		c.Transitions(uint64(n + 1))
+		c.States(1)
+		c.Nontrivial(mck.HashStr(proto, fmt.Sprint(n, sameID)))
+		if m := probe(victim, 0); m != "" {
+			c.Violation(proto+":cache:capacity:victim", fmt.Sprintf("after %d announcements by other exporters the first exporter's data is no longer decoded with its own template: %s", n, m), desc())
+			return
+		}
+		for i := 0; i < n; i += 97 {
+			if m := probe(other(i), 1+i%2); m != "" {
+				c.Violation(proto+":cache:capacity:other", fmt.Sprintf("exporter %d of %d: %s", i, n, m), desc())
+				return
+			}
+		}
+		c.Outcome(fmt.Sprintf("n=%d ok", n))
+		c.Sample(desc)
+	}}
 }
